@@ -101,7 +101,10 @@ fn values(ctx: &mut Ctx, size: usize) {
     for n in 1..=size {
         ctx.stage(&format!("U-VAL(size={})", n));
         for_each_owned(ctx, &g, VAL, n, n, |ctx, _s, v| {
-            let prog = vec![print("~\\n", vec![v.clone()]), let_("x", v), print("~ and ~\\n", vec![var("x"), var("x")])];
+            let prog = vec![print("~\\n", vec![v.clone()]), let_("x", v), print("~ and ~\\n", vec![var("x"), var("x")]),
+                // the same value reachable twice from ONE argument: sharing is not a cycle
+                print("~\\n", vec![array(int(2), var("x"))]),
+                print("~\\n", vec![object(Some(var("x")), vec![field("a", var("x")), field("b", array(int(1), var("x")))])])];
             semantic_case(ctx, "U-VAL", &prog);
             ctx.count("programs", 1);
         });
@@ -111,6 +114,6 @@ fn values(ctx: &mut Ctx, size: usize) {
 }
 
 pub fn run(ctx: &mut Ctx) {
-    formats(ctx, if ctx.quick() { 5 } else { 6 });
-    values(ctx, if ctx.quick() { 3 } else { 4 });
+    formats(ctx, if ctx.quick() { 6 } else { 7 });
+    values(ctx, if ctx.quick() { 4 } else { 5 });
 }
